@@ -333,7 +333,119 @@ func c09f8body(x *vexp.Ctx) {
 	vsched.Join("peer side torn down", func() bool { return w.srvDone && r.exits == r.handlers })
 }
 
+// F9: SEVERAL senders (one channel each) blocked on the full connection write queue when the transport fails.
+func c09f9body(x *vexp.Ctx) {
+	for k, v := range map[string]int{"writeq": 64, "wbuf": 16, "rbuf": 16} {
+		if _, ok := x.Params[k]; !ok {
+			x.Params[k] = v
+		}
+	}
+	nsend := x.P("senders", 3)
+	r := &c09rec{}
+	w := newWide(x, HandleFunc(func(ctx Context, ch Channel) status.Status {
+		r.handlers++
+		defer func() { r.exits++ }()
+		vsched.Recv(ctx.Wait())
+		return ctx.Status()
+	}))
+	// handshake first (unbounded socket buffer), then the peer stops reading and the socket buffer is tiny
+	ctx := async.NoContext()
+	chs := make([]Channel, nsend)
+	for i := range chs {
+		ch, st := w.cli.Channel(ctx)
+		if !st.OK() {
+			x.Fail("Channel fails on a healthy connection", "%v", st)
+			return
+		}
+		chs[i] = ch
+		if st := ch.Send(ctx, []byte{byte('a' + i)}); !st.OK() { // opens the channel
+			x.Fail("Send fails on a healthy connection", "%v", st)
+			return
+		}
+		r.ctxs = append(r.ctxs, ch.Context())
+	}
+	vsched.WaitIdle("channels open")
+	w.b.StallAfterRead(0, nil)
+	w.a.SetWriteCapacity(32)
+	done := make([]bool, nsend)
+	sts := make([]status.Status, nsend)
+	for i := range chs {
+		i := i
+		vsched.GoNamed(fmt.Sprintf("sender%d", i), func() {
+			// messages larger than the write queue: the first is taken by the send loop (stuck in the socket
+			// write), the second sits in the queue, every further one waits for queue space
+			for k := 0; k < 3; k++ {
+				if st := chs[i].Send(ctx, vPayload(0, i, k, 2000)); !st.OK() {
+					sts[i] = st
+					break
+				}
+			}
+			done[i] = true
+		})
+	}
+	vsched.WaitIdle("senders blocked")
+	blocked := 0
+	for i := range done {
+		if !done[i] {
+			blocked++
+		}
+	}
+	switch x.P("mode", 0) {
+	case 0:
+		w.b.CloseWrite()
+	case 1:
+		w.b.Break()
+	case 2:
+		w.cli.Close()
+	}
+	vsched.Join("client connection closed and every blocked Send returned", func() bool {
+		for _, d := range done {
+			if !d {
+				return false
+			}
+		}
+		return w.cliDone
+	})
+	for i, st := range sts {
+		if blocked > 0 && st.OK() && !done[i] {
+			x.Fail("blocked Send reports OK after the connection failed", "sender %d", i)
+		}
+	}
+	for i, c := range r.ctxs {
+		if !c.Done() {
+			x.Fail("channel context not cancelled after the connection failed", "context #%d of %d is still live", i, len(r.ctxs))
+		}
+	}
+	for _, ch := range chs {
+		ch.Free()
+	}
+	x.Outcome = fmt.Sprintf("senders=%d blocked-at-fault=%d", nsend, blocked)
+	w.b.Unstall()
+	w.b.Break()
+	vsched.Join("peer side torn down", func() bool { return w.srvDone && r.exits == r.handlers })
+}
+
 func init() {
+	vexp.Register(&vexp.Scenario{
+		Name: "c09.F9.senders-blocked-on-write-queue", Prop: "C09", MaxSteps: 200000,
+		Doc: "1..3 senders (one channel each) blocked on the full connection write queue (64 bytes, 2000-byte messages, peer not reading, send loop stuck inside the socket write); then the peer half-closes / the transport is cut / the connection is closed locally: EVERY blocked Send must return, the connection must close and cancel all channel contexts",
+		Bounds: func(thorough bool) vexp.Bounds {
+			if thorough {
+				return vexp.Bounds{P: 1, F: 1, E: 0}
+			}
+			return vexp.Bounds{P: 0, F: 1, E: 0}
+		},
+		Configs: func(thorough bool) []map[string]int {
+			var out []map[string]int
+			for n := 1; n <= 3; n++ {
+				for mode := 0; mode < 3; mode++ {
+					out = append(out, map[string]int{"senders": n, "mode": mode})
+				}
+			}
+			return out
+		},
+		Body: c09f9body,
+	})
 	vexp.Register(&vexp.Scenario{
 		Name: "c09.F8.peer-stops-reading", Prop: "C09", MaxSteps: 200000,
 		Doc: "socket buffer of 32 bytes, window 250, 100-byte messages: the peer stops reading after EVERY byte offset k of the client's stream, so the local send loop blocks inside the socket write while a Send waits for the window; then the peer half-closes at once / half-closes after everything local is blocked / resets: the local connection must close, cancel its channel contexts and release every blocked Send/Receive with a non-OK status",
